@@ -17,7 +17,7 @@ def _r(x):
     if isinstance(x, int):
         return z3.RealVal(x)
     if isinstance(x, float):
-        return z3.RealVal(repr(x))        # the decimal the source text denotes (0.1 is one tenth)
+        return z3.RealVal(str(Fraction(x)))     # the exact value of the double (so concrete replays agree at boundaries)
     if isinstance(x, Fraction):
         return z3.RealVal(str(x))
     if isinstance(x, core.SymInt):
